@@ -51,7 +51,15 @@ def finish (s : St) : String :=
           | some pj => if (c.ft.node pj).info.id == pid then n else n + 1
           | none => n + 1)
       | none => n + 1
-    s!"{s.id} corr={r.corrFails.render} judge={r.fails.render} asked={r.asked} ported={r.portCompared} vis={c.ft.size} raw={js.rawNodes} fanout={s.fanout} hiddenvis={js.hiddenWithVisible} alias={js.aliases} extra={js.extras} err={js.errors} missing={js.missing} zerowidth={js.zeroWidth} multiline={js.multiline} fields={fields} sexpok={if (sexpOKKids lang d.root.kids d.root.data.productionId 0 || hasHiddenMissing lang d.root 0) && !(lang.symMeta 0).visible then 1 else 0} stackbad={r.stackBad} anonleafok={if anonLeafOKKids lang d.root.kids d.root.data.productionId 0 then 1 else 0} hiddenextraok={if hiddenExtraOKKids lang d.root.kids d.root.data.productionId 0 then 1 else 0} hiddenmissing={if hasHiddenMissing lang d.root 0 then 1 else 0} parchk={ph.checked} parzw={ph.zeroWidth} parbad={ph.bad} parflat={flatBad} kind={s.kind}"
+    -- the same for next_sibling_spec_partial, and head(laterOnPath) = next sibling in the flattened tree
+    let sh := siblingHyp lang rootRef
+    let nsFlatBad := sh.nexts.foldl (init := 0) fun n (did, exp) =>
+      match c.byId.get? did with
+      | some j =>
+        let flat := (c.ft.nextSibling j false).map fun i => ((c.ft.node i).info.raw.data, (c.ft.node i).info.alias)
+        if decide (flat = exp) then n else n + 1
+      | none => n + 1
+    s!"{s.id} corr={r.corrFails.render} judge={r.fails.render} asked={r.asked} ported={r.portCompared} vis={c.ft.size} raw={js.rawNodes} fanout={s.fanout} hiddenvis={js.hiddenWithVisible} alias={js.aliases} extra={js.extras} err={js.errors} missing={js.missing} zerowidth={js.zeroWidth} multiline={js.multiline} fields={fields} sexpok={if (sexpOKKids lang d.root.kids d.root.data.productionId 0 || hasHiddenMissing lang d.root 0) && !(lang.symMeta 0).visible then 1 else 0} stackbad={r.stackBad} anonleafok={if anonLeafOKKids lang d.root.kids d.root.data.productionId 0 then 1 else 0} hiddenextraok={if hiddenExtraOKKids lang d.root.kids d.root.data.productionId 0 then 1 else 0} hiddenmissing={if hasHiddenMissing lang d.root 0 then 1 else 0} parchk={ph.checked} parzw={ph.zeroWidth} parbad={ph.bad} parflat={flatBad} nschk={sh.checked} nsout={sh.outside} nsbad={sh.bad} nsflat={nsFlatBad} kind={s.kind}"
   | _, _, _ => s!"{s.id} corr=BADINPUT judge=BADINPUT asked=0"
 
 def step (s : St) (line : String) : IO St := do
